@@ -5,6 +5,7 @@ import logging
 import numpy as np
 
 from pyhf import exceptions
+from pyhf import _verif
 from pyhf.optimize.common import shim
 from pyhf.tensor.manager import get_backend
 
@@ -63,6 +64,8 @@ class OptimizerMixin:
         try:
             assert result.success
         except AssertionError:
+            if _verif.ON:
+                _verif.emit("fit.failed", x=[float(v) for v in result.x])
             log.error(result, exc_info=True)
             raise exceptions.FailedMinimization(result)
         return result
@@ -179,6 +182,21 @@ class OptimizerMixin:
             do_stitch=do_stitch,
         )
 
+        if _verif.ON:
+            _verif.emit(
+                "fit.shim",
+                npars=pdf.config.npars,
+                init=[float(v) for v in tensorlib.tolist(tensorlib.astensor(init_pars))],
+                bounds=[[float(b[0]), float(b[1])] for b in par_bounds],
+                fixed_vals=[[int(i), float(v)] for i, v in (fixed_vals or [])],
+                do_grad=bool(do_grad),
+                do_stitch=bool(do_stitch),
+                x0=[float(v) for v in minimizer_kwargs['x0']],
+                vbounds=[[float(b[0]), float(b[1])] for b in minimizer_kwargs['bounds']],
+                mfixed=[[int(i), float(v)] for i, v in minimizer_kwargs['fixed_vals']],
+                optimizer=self.name,
+                backend=tensorlib.name,
+            )
         # handle non-pyhf ModelConfigs
         try:
             par_names = pdf.config.par_names
@@ -194,9 +212,23 @@ class OptimizerMixin:
         result = self._internal_minimize(
             **minimizer_kwargs, options=kwargs, par_names=par_names
         )
+        if _verif.ON:
+            _verif.emit(
+                "fit.raw",
+                x=[float(v) for v in result.x],
+                fun=float(result.fun),
+                success=bool(result.success),
+            )
         result = self._internal_postprocess(
             result, stitch_pars, return_uncertainties=return_uncertainties
         )
+        if _verif.ON:
+            _x = tensorlib.tolist(result.x)
+            _verif.emit(
+                "fit.return",
+                x=[float(v[0] if isinstance(v, list) else v) for v in _x],
+                fun=float(tensorlib.tolist(result.fun)),
+            )
 
         _returns = [result.x]
         if return_correlations:
